@@ -25,7 +25,7 @@ def FieldsOk (env : Env) (fvs : List (Field × Val)) : Prop :=
   ∀ fv ∈ fvs, (fv.1.ann.okC env = true ∨ fv.1.ann = .none) ∧ fv.2.wf env = true ∧ fv.2.plain = true
 /-- soundness-side guards (C01) -/
 def FieldsSound (env : Env) (fvs : List (Field × Val)) : Prop :=
-  ∀ fv ∈ fvs, fv.1.ann.noSpecial = true ∧ fv.2.wf env = true ∧ fv.2.plain = true
+  ∀ fv ∈ fvs, fv.1.ann.noSpecial = true ∧ fv.2.wf env = true ∧ fv.2.plain = true ∧ fv.1.ann.strAnnOk env fv.2 = true
 
 theorem validateTypes_none_iff (env : Env) (orc : Nat → Val → Raw) (hw : WfEnv env) :
     ∀ (fvs : List (Field × Val)), FieldsOk env fvs → (validateTypes env orc fvs = none ↔ allConform env fvs = true) := by
@@ -102,7 +102,7 @@ theorem instance_iff_fields_conform (env : Env) (orc : Nat → Val → Raw) (hor
   cases p <;> simp only [construct, cfg_paths, ↓reduceIte] <;> exact ⟨key.trans hv, key2⟩
 
 /-- soundness alone, under C01's weaker guards (any annotation without unsupported nodes, incl. bare generics and any spelling) -/
-theorem instance_fields_conform (env : Env) (orc : Nat → Val → Raw) (hw : WfEnv env) (hs : StrAnnGuard env) :
+theorem instance_fields_conform (env : Env) (orc : Nat → Val → Raw) (hw : WfEnv env) :
     ∀ (fvs : List (Field × Val)), FieldsSound env fvs → validateTypes env orc fvs = none → allConform env fvs = true := by
   intro fvs
   induction fvs with
@@ -113,7 +113,7 @@ theorem instance_fields_conform (env : Env) (orc : Nat → Val → Raw) (hw : Wf
     have h0 := hok (f, v) (by simp)
     simp only [validateTypes, cfg_validate] at h
     cases hc : checkType env orc f.ann v <;> simp [hc] at h
-    have := sound_checkType env orc hw hs f.ann v h0.1 h0.2.1 h0.2.2 hc
+    have := sound_checkType env orc hw f.ann v h0.2.2.2 h0.1 h0.2.1 h0.2.2.1 hc
     simp only [allConform, List.all_cons, this, Bool.true_and]
     exact ih (fun x hx => hok x (by simp [hx])) h
 
